@@ -182,8 +182,11 @@ def r2_skip_sets(ctx: Ctx) -> None:
     need = {" ", "\t", "\n", ".", ";", "EOF"}
     ctx.check(need <= followers, "accept_opcode:followers", f"a mnemonic may be followed by space, tab, newline, end of input, '.' (size suffix) or ';' (comment); missing {sorted(need - followers)}")
     le = ctx.repo.func(SST, "lex_expression")
-    lp = [n for n in walk_no_nested(le.node) if isinstance(n, ast.While)]
-    ok = len(lp) == 1 and unparse(lp[0].body[0]) == "s.ignore_run(' ')"
+    lp = [n for n in le.node.body if isinstance(n, (ast.While, ast.For))]
+    if len(lp) != 1:
+        raise AnalysisError("lex_expression: expected one token loop")
+    lead = [st for st in lp[0].body if not (isinstance(st, ast.If) and not st.orelse and all(isinstance(b, ast.Break) for b in st.body))]
+    ok = bool(lead) and unparse(lead[0]) == "s.ignore_run(' ')"
     ctx.check(ok, "lex_expression:spaces", "spaces are skipped before every operand and operator")
     lx = ctx.repo.func(SST, "lex_opcode_index")
     ctx.check(any(unparse(s) == "s.ignore_run(' ')" for s in lx.node.body), "lex_opcode_index:spaces", "spaces after the index comma are skipped")
